@@ -548,6 +548,59 @@ def response_roundtrip(coding: int, sup: int, chunk: int, method: int) -> str:
         return orc.result()
 
 
+AE_POOL = (None, 'gzip', 'gzip;q=0', 'identity', 'x-lz4;q=0.5, gzip;q=0.1', 'bogus')
+
+
+def keepalive_negotiation(ae1: int, ae2: int, sup: int, chunk: int, m1: int, m2: int) -> str:
+    """
+    Two requests served by ONE handler instance (http.server uses one instance for all requests of a keep-alive connection;
+    parse_request replaces self.headers / self.path per request): the coding of the second response is negotiated from the
+    SECOND request's Accept-Encoding, whatever the first request said; each response is recoverable by the real reader.
+    pre: 0 <= ae1 < 6
+    pre: 0 <= ae2 < 6
+    pre: 0 <= sup < 5
+    pre: 0 <= chunk < 4
+    pre: 0 <= m1 < 2
+    pre: 0 <= m2 < 2
+    post: __return__ == 'ok'
+    """
+    from harness.C13 import KEY, RESP, PathElementRegistry, mk_component
+    a1, a2 = pick(ae1, AE_POOL), pick(ae2, AE_POOL)
+    enabled = pick(sup, SUPPORTED)
+    chunk = pick(chunk, CHUNKS)
+    methods = (pick(m1, ('POST', 'GET')), pick(m2, ('POST', 'GET')))
+    with untraced():
+        orc = Oracle()
+        try:
+            comp = mk_component(0, True, 0, 0, False)[0]
+            registry = PathElementRegistry()
+            registry.register_instance(KEY, comp)
+            h = RecHandler('/k/?wsdl', hs.CIHeaders([]), hs.FakeStream(b''), mk_server(registry, chunk, enabled))
+            for tag, ae, method in (('first', a1, methods[0]), ('second', a2, methods[1])):
+                pairs = [('Content-Length', '4')]
+                if ae is not None:
+                    pairs.append(('Accept-Encoding', ae))
+                # what handle_one_request / parse_request do for the next request on the connection
+                h.headers, h.path, h.rfile = hs.CIHeaders(pairs), '/k/?wsdl', hs.FakeStream(b'<x/>')
+                h.out, h.wfile = [], hs.ListWriter()
+                (h.do_POST if method == 'POST' else h.do_GET)()
+                hdrs = [(r[1], r[2]) for r in h.out if r[0] == 'header']
+                body = h.wfile.value()
+                low = dict(hdrs)
+                if low.get('transfer-encoding') == 'chunked':
+                    ok, segs, end = hs.parse_chunked_strict(body)
+                    if not orc.check(ok and end == len(body), tag + ':invalid-chunked-framing'):
+                        return orc.result()
+                    body = hs.payload_of(body, segs)
+                check_choice(orc, tag, low.get('content-encoding'), ref_accept_encoding(ae), enabled)
+                st = hs.FakeStream(body)
+                kind, got = body_outcome(HTTPReader.read_response_body, hs.FakeResponse(hs.CIHeaders(hdrs), st), st, None)
+                orc.check(kind == 'returned' and got == RESP, tag + ':consumer-does-not-recover-payload')
+        except Exception as ex:  # noqa: BLE001
+            return exc_result(orc, ex, 'harness')
+        return orc.result()
+
+
 # ================================================================================================ concatenated / trailing data
 
 def codec_concatenation(codec: int, case: int, n1: int, n2: int) -> str:
